@@ -24,17 +24,17 @@ P("C01",
   assumptions=["cryptographic soundness of RSASSA-PSS/ECDSA as implemented by Go", "valid = valid under the six supported algorithms"])
 
 P("C02",
-  technique="model-based PBT: exhaustive no-plugin grid + rapid plugin scenarios against a decision table written from the statement; metamorphic monotonicity (strict=>permissive=>audit) and action-tagging relations; call-log invariants of scripted collaborators; generated further listed stores around the judged one",
+  technique="model-based PBT: exhaustive no-plugin grid + rapid plugin scenarios against a decision table written from the statement; metamorphic monotonicity (strict=>permissive=>audit) and action-tagging relations; call-log invariants of scripted collaborators; generated further listed stores around the judged one; in-process plugins that answer every metadata call with one shared slice; blob statements of the same name with other levels verified first",
   level_text="Exploration with an exhaustively enumerated core (all 24 enforcement maps x trust x identity x expiry x certificate-time x revocation situations without plugin) plus sampled plugin scenarios; the model restates the statement, the relations are model-independent.",
   level_note="Trusts the scripted trust store / revocation / plugin mocks and the harness's envelope builders; margins of >= 30 min around the wall clock.",
-  health={"accept": 50, "reject": 50, "plugin": 50, "crit=unprocessed": 5, "crit=processed": 5, "rev=skip": 10, "logged-failure": 20, "noncritical-attr-before": 20, "noncritical-attr-not-reported-by-plugin": 20, "blob-statement-with-same-name": 200, "crit-key-extends-plugin-header-name": 100, "several-listed-stores": 500, "unloadable-store-beside-a-store-holding-the-root": 50},
+  health={"accept": 50, "reject": 50, "plugin": 50, "crit=unprocessed": 5, "crit=processed": 5, "rev=skip": 10, "logged-failure": 20, "noncritical-attr-before": 20, "noncritical-attr-not-reported-by-plugin": 20, "blob-statement-with-same-name": 200, "crit-key-extends-plugin-header-name": 100, "several-listed-stores": 500, "unloadable-store-beside-a-store-holding-the-root": 50, "plugin-answers-metadata-with-one-shared-slice": 500, "blob-twin-level=strict-revocation-skipped": 100},
   assumptions=["non-critical extended attributes are generated only as incidental filler (they must never decide anything, reported by the plugin or not); a non-critical plugin-name attribute is outside the statement and not generated"])
 
 P("C03",
-  technique="model-based PBT: generated placements of chain certificates into typed named stores x statement store lists; set-semantics oracle + call-log invariant of an instrumented trust store; scripted and real directory-backed stores; verifier instances reused across verifications; eight goroutines verifying through one verifier over the real store against the sequential model; generated store names that reach other directories (constructor, late edit, direct store call); blob statement selection by generated names against a three-statement document",
+  technique="model-based PBT: generated placements of chain certificates into typed named stores x statement store lists; set-semantics oracle + call-log invariant of an instrumented trust store; scripted and real directory-backed stores; verifier instances reused across verifications; eight goroutines verifying through one verifier over the real store against the sequential model; generated store names that reach other directories (constructor, late edit, direct store call); blob statement selection by generated names against a three-statement document; store contents rotated under a living verifier",
   level_text="Exploration: authenticity verdict and the exact (type,name) sequence of trust-store loads compared with a set-semantics model over generated placements, multi-statement documents, both schemes and formats.",
   level_note="Trusts the instrumented trust store mock; a sub-family runs against the real directory-backed store.",
-  health={"auth=pass": 30, "auth=fail": 30, "decoy-wrong-type": 10, "decoy-unlisted": 10, "decoy-other-statement": 10, "listed-store-error": 10, "real-directory-store": 10, "verification-plugin=ti": 100, "scope-case-twin-selected": 100, "plugin-runs-after-logged-authenticity-failure": 50, "concurrent-verifications": 1, "listed-store-is-symlink": 50, "listed-store-bundle-ends-in-leaf": 50, "store-name-reaching-elsewhere": 100, "name-route=late": 30, "name-route=direct": 15, "blob-unknown-name-with-global-statement-present": 30, "store-contents-rotated-on-long-lived-verifier": 200, "trust-withdrawn-by-rotation": 30, "listed-store-holds-sub-directory": 20})
+  health={"auth=pass": 30, "auth=fail": 30, "decoy-wrong-type": 10, "decoy-unlisted": 10, "decoy-other-statement": 10, "listed-store-error": 10, "real-directory-store": 10, "verification-plugin=ti": 100, "scope-case-twin-selected": 100, "plugin-runs-after-logged-authenticity-failure": 50, "concurrent-verifications": 1, "listed-store-is-symlink": 50, "listed-store-bundle-ends-in-leaf": 50, "store-name-reaching-elsewhere": 100, "name-route=late": 30, "name-route=direct": 15, "blob-unknown-name-with-global-statement-present": 30, "store-contents-rotated-on-long-lived-verifier": 200, "trust-withdrawn-by-rotation": 30, "listed-store-holds-sub-directory": 20, "listed-store-is-an-empty-directory": 20})
 
 P("C04",
   technique="model-based + metamorphic PBT: structured subject/identity generators, own RFC 4514 renderer with generated spacing/alias/escaping; subset oracle on structured data; permutation/spacing/alias invariance; identity lists edited after construction (one-sided oracle); verifier reuse across an OCI and a same-named blob statement; eight goroutines verifying two signers under six statements of one verifier against the statement's table",
@@ -44,10 +44,10 @@ P("C04",
   fuzz=[{"name": "FuzzC04_Identities", "seconds": 180}])
 
 P("C05",
-  technique="bounded-exhaustive enumeration of all result vectors {OK,NonRevokable,Unknown,Revoked}^n, n<=4 x action x interface x scheme, plus rapid-generated decorations; aggregation oracle + received-options check of a scripted validator; generated chain shapes (empty leaf subject, expired non-leaf), context cancelled by the scripted validator, optional identity-only plugin",
+  technique="bounded-exhaustive enumeration of all result vectors {OK,NonRevokable,Unknown,Revoked}^n, n<=4 x action x interface x scheme, plus rapid-generated decorations; aggregation oracle + received-options check of a scripted validator; generated chain shapes (empty leaf subject, expired non-leaf), context cancelled by the scripted validator, optional identity-only plugin, trust anchors other than the root, a same-named blob statement with another revocation action verified first",
   level_text="Exhaustive over the 340 result vectors x {enforce,log,skip} x both validator interfaces x both schemes (finite space, fully enumerated), sampled over method annotations and server errors.",
   level_note="Trusts the scripted validator to record the options it received; result vectors have the chain's length (validator contract).",
-  health={"final=ok": 10, "final=revoked": 10, "final=unknown": 10, "validator-error": 5, "action=skip": 10, "iface=client": 10, "subjects=empty-leaf": 100, "context-cancelled-during-check": 50, "validity=expired-nonleaf": 100, "identity-only-plugin": 100, "decor=6": 100})
+  health={"final=ok": 10, "final=revoked": 10, "final=unknown": 10, "validator-error": 5, "action=skip": 10, "iface=client": 10, "subjects=empty-leaf": 100, "context-cancelled-during-check": 50, "validity=expired-nonleaf": 100, "identity-only-plugin": 100, "decor=6": 100, "trust-anchor-is-not-the-root": 200, "blob-twin-revocation=skip": 50})
 
 P("C06",
   technique="model-based PBT: generated expiry/signing-time/validity-window placements and RFC 3161 countersignatures from an in-process TSA; decision model of the statement; both-sides-data boundaries tested exactly; generated revocation action, constructor and trust-store implementation (scripted / directory-backed)",
@@ -93,11 +93,11 @@ P("C09",
   fuzz=[{"name": "FuzzC09_PolicyJSON", "seconds": 120}])
 
 P("C10",
-  technique="model-based PBT: bounded-exhaustive enumeration + rapid random listings against a decision model, scripted repository/verifier call logs",
+  technique="model-based PBT: bounded-exhaustive enumeration + rapid random listings against a decision model, scripted repository/verifier call logs; repositories that wrap callback errors, repeat descriptors, and list descriptors carrying creation times in any order",
   level_text="Exploration with an exhaustively enumerated core: every listing of up to 5 (quick) / 8 (thorough) signatures x every page split x every limit x reference kinds is run through notation.Verify and compared with a model written from the statement, including exact fetch/verify call counts; larger listings are sampled with rapid; a second family realises the statuses with real signatures, the real verifier and an in-memory OCI store and evaluates the model on the order the store actually lists.",
   level_note="Trusts the scripted Repository/Verifier mocks to record calls faithfully and oras' reference parser for what counts as a tag/digest reference.",
   design_ref="DESIGN.md section 5, C10",
-  health={"success": 10, "success-after-invalid": 5, "multi-page": 10, "empty-page": 5, "skip": 5, "ref=mismatch": 5, "limit<=0": 5, "real-verifier": 10, "ref=mismatch-sha512": 100, "listing-repeats-a-descriptor": 200, "repository-wraps-callback-errors": 1000},
+  health={"success": 10, "success-after-invalid": 5, "multi-page": 10, "empty-page": 5, "skip": 5, "ref=mismatch": 5, "limit<=0": 5, "real-verifier": 10, "ref=mismatch-sha512": 100, "listing-repeats-a-descriptor": 200, "repository-wraps-callback-errors": 1000, "listed-descriptors-carry-creation-times": 1000, "created=asc": 200},
   assumptions=["a verifier that returns an error together with a nil outcome is outside the statement and not generated"])
 
 P("C11",
@@ -107,13 +107,13 @@ P("C11",
   health={"repo=scripted": 20, "repo=oci-layout": 20, "calls>=2": 20, "meta=colliding": 5, "meta=reserved": 5, "ref=digest-mismatch": 5, "signer-annotations=clashing": 100, "plugin-backed-signer=envelope": 100, "plugin-backed-signer=envelope-drops-annotations": 50, "reference-moves-after-first-resolve": 50, "signing-key-with-other-hash-than-sha256": 100, "ref=digest-mismatch-other-algorithm": 20})
 
 P("C12",
-  technique="robustness PBT + fuzzing: structured mutations of valid inputs and the full verifier-configuration cross product run under recover with allocation accounting; hostile on-disk OCI layouts and an in-process hostile HTTP registry behind the real oras client; generated shapes of the trust-store directory tree x store names of any length; four native fuzz targets in thorough",
+  technique="robustness PBT + fuzzing: structured mutations of valid inputs and the full verifier-configuration cross product run under recover with allocation accounting; hostile on-disk OCI layouts and an in-process hostile HTTP registry behind the real oras client; generated shapes of the trust-store directory tree x store names of any length; identities with hex-string values nested up to 300000 deep (stack growth accounted); four native fuzz targets in thorough",
   level_text="Exploration: every public entry point x input kind x verifier configuration is called under recover; a panic, a runaway allocation (explicit threshold) or an inconsistent (outcome, error) pair is a violation.",
   level_note="'Runaway allocation' is an explicit threshold (512 MiB for inputs < 4 MiB), not a proof of boundedness; a worker ended by the Go runtime's fatal out-of-memory error counts as a violation when the allocating goroutine's stack is inside notation-go (the driver reads the crash report; the replay re-runs the shard); other worker deaths (panics in goroutines the library might spawn) are reported as inconclusive.",
   crash_is_violation=True,
   health={"entry=verifier.Verify": 50, "entry=verifier.VerifyBlob": 50, "entry=notation.Verify": 20, "entry=notation.VerifyBlob": 20, "entry=SkipVerify": 20,
           "config-cross": 50, "parsed": 50, "envelope-content": 50, "outcome=ok": 50, "outcome=err": 50, "resigned": 50,
-          "family=1": 1000, "family=2": 1000, "family=4": 100, "family=5": 1000, "family=6": 100, "family=5b": 100, "tree-shape=type-dir-is-file": 5, "tree-name=longer-than-a-file-name": 20,
+          "family=1": 1000, "family=2": 1000, "family=4": 100, "family=5": 1000, "family=6": 100, "family=5b": 100, "family=5c": 50, "dn-marker=escaped-backslash": 10, "dn-depth>=100000": 10, "tree-shape=type-dir-is-file": 5, "tree-name=longer-than-a-file-name": 20,
           "wrong-kind-verifier": 50, "skip-level:notation.VerifyBlob": 20, "skip-level:notation.Verify": 20, "skip-level:SkipVerify": 20, "construct=error": 10,
           "docs=oci": 50, "docs=blob": 50, "docs=both": 50, "level=strict": 50, "level=permissive": 50, "level=audit": 50, "level=skip": 50,
           "blobstmt=named": 50, "blobstmt=global": 50, "pm=nil": 50, "pm=scripted": 50, "sig=valid": 50, "sig=invalid": 50, "sig=plugin": 50,
@@ -143,11 +143,11 @@ P("C13",
 
 P("C14",
   level="fault_enumeration",
-  technique="schedule and crash-point enumeration: hook-owned interleavings (bounded-exhaustive for 2 writers) with a read of every URL after every step, kill at every hook step of generated store sequences, strace kill injection at every cache syscall (thorough), strace error injection (the n-th write/close/renameat/... fails with ENOSPC, EIO, EACCES; quick and thorough), free-running goroutine/process stress incl. many URLs on one shared cache value; cache roots on another file system than $TMPDIR (/dev/shm) in the crash and free-running explorers; porcupine register linearizability as the history oracle",
+  technique="schedule and crash-point enumeration: hook-owned interleavings (bounded-exhaustive for 2 writers) with a read of every URL after every step, kill at every hook step of generated store sequences, strace kill injection at every cache syscall (thorough), strace error injection (the n-th write/close/renameat/... fails with ENOSPC, EIO, EACCES; quick and thorough), free-running goroutine/process stress incl. many URLs on one shared cache value; cache roots on another file system than $TMPDIR (/dev/shm) in the crash and free-running explorers; sequential histories over several cache values on one root; a read started after a store while an earlier read is still decoding 25 MiB; stores racing reads of an expired entry; porcupine register linearizability as the history oracle",
   level_text="Fault enumeration: every step boundary of a store (temp created / written / closed / renamed) is used as a pre-emption point and as a crash point; histories are checked for linearizability as a per-URL register and every read must be a miss or a byte-exact stored bundle.",
   level_note="Crash = SIGKILL of the writing process (no power loss / fsync semantics); scheduling inside a single write(2) is only sampled by the free-running explorer. Uses the verif-tag hooks in internal/file.WriteFile; the free-running and strace explorers do not depend on them.",
   helpers=["crlworker"],
-  health={"explorer=schedules": 50, "explorer=crash-hook": 20, "explorer=free-running": 1, "explorer=fault-syscall": 20, "store-failed-or-unreported": 5, "explorer=shared-value-many-urls": 1, "explorer=cancelled-store-then-store": 6, "explorer=huge-entry": 1},
+  health={"explorer=schedules": 50, "explorer=crash-hook": 20, "explorer=free-running": 1, "explorer=fault-syscall": 20, "store-failed-or-unreported": 5, "explorer=shared-value-many-urls": 1, "explorer=cancelled-store-then-store": 6, "explorer=huge-entry": 1, "explorer=several-cache-values": 50, "same-value-stores-same-bundle-again-after-a-foreign-store": 5, "explorer=read-after-store-during-slow-read": 3, "explorer=store-racing-reads-of-an-expired-entry": 1},
   timeout={"quick": 1200, "thorough": 7200})
 
 P("C15",
@@ -172,7 +172,7 @@ P("C16",
   shards={"quick": 8, "thorough": 16})
 
 P("C17",
-  technique="behaviour-product PBT over real child processes (scriptable fakeplugin): exit code x stdout x stderr x timing for the five commands; response/error-mapping oracle, allocation accounting for the cap, wide-margin time bound; calls interleaved at the library's own log statements (schedule owned through the context logger), free-running concurrent calls, fast-failing plugins under deadline judged by their own error",
+  technique="behaviour-product PBT over real child processes (scriptable fakeplugin): exit code x stdout x stderr x timing for the five commands; response/error-mapping oracle, allocation accounting for the cap, wide-margin time bound; calls interleaved at the library's own log statements (schedule owned through the context logger), free-running concurrent calls, fast-failing plugins under deadline judged by their own error; plugin objects reused after a complete metadata reply; structured errors of up to 5 MiB",
   level_text="Exploration over generated plugin behaviours with real processes; output cap judged by allocation accounting and by the impossibility of over-cap successes; time bound with a margin (10 s) far from the descendants' 40 s sleep.",
   level_note="The numeric time bound and allocation threshold are the harness's choices (the statement says 'bounded'); arbitrary plugin behaviour is sampled from the listed classes.",
   helpers=["fakeplugin"],
@@ -181,7 +181,7 @@ P("C17",
           "stdout=valid": 20, "stdout=nonjson": 5, "stdout=empty": 5, "stdout=fieldtype": 5, "stdout=wrongname": 2, "stdout=badversion": 2,
           "stdout=missing-name": 2, "stdout=empty-url": 2, "stdout=missing-supportedContractVersions": 2, "stdout=empty-capabilities": 2,
           "stderr=structured": 20, "stderr=nonjson": 10, "stderr=empty": 10, "errcode=THROTTLED": 2,
-          "stdout=overcap": 1, "stderr=overcap": 1, "timing=descendant": 1, "timing=slow": 1, "timing=cancel": 1, "timing=nodeadline": 1, "interleaved-calls": 10, "concurrent-calls": 1, "failing-fast-judged-in-full": 6, "descendant-left-the-process-group": 2},
+          "stdout=overcap": 1, "stderr=overcap": 1, "timing=descendant": 1, "timing=slow": 1, "timing=cancel": 1, "timing=nodeadline": 1, "interleaved-calls": 10, "concurrent-calls": 1, "failing-fast-judged-in-full": 6, "descendant-left-the-process-group": 2, "plugin-object-served-a-complete-metadata-reply-before": 50, "structured-error-with-large-message": 5},
   timeout={"quick": 900, "thorough": 5400})
 
 P("C18",
@@ -214,7 +214,7 @@ P("C19",
           "op=push-hostile:oversize-manifest": 10, "op=push-signature:at-manifest-cap": 5, "list-refused:oversize-manifest": 10, "fetch-while-holding-earlier-envelopes": 100, "blob-cap-boundary": 3})
 
 P("C20",
-  technique="stateful model-based PBT (rapid state machine Install/Uninstall/Get/List) over a real plugin root with generated script plugins; own semver-precedence implementation; tree-snapshot oracle and metamorphic source-shape relations; differential PBT and native fuzz of the version comparison (verif-tag export) against that implementation",
+  technique="stateful model-based PBT (rapid state machine Install/Uninstall/Get/List) over a real plugin root with generated script plugins; own semver-precedence implementation; tree-snapshot oracle and metamorphic source-shape relations; sources rewritten in place after an installation (the installed tree must not follow); differential PBT and native fuzz of the version comparison (verif-tag export) against that implementation",
   level_text="Exploration over install/uninstall histories with versions chosen to separate precedence from string order and source shapes (file/dir, candidates, extra files, sub-directories); refused installs must leave the tree identical.",
   level_note="Plugins are generated shell scripts (the manager only needs an executable printing metadata); trusts the harness's semver implementation (written from semver.org section 11).",
   health={"op=install": 100, "install=refused": 30, "install=replaced": 20, "install=fresh": 30, "over-existing": 30,
@@ -223,7 +223,7 @@ P("C20",
           "op=uninstall": 20, "uninstall=installed": 10, "op=get": 20, "op=list": 20,
           "version-relation=lt": 10, "version-relation=eq": 10, "version-relation=gt": 10, "version-relation=invalid": 10,
           "shape:subdirs": 10, "shape:extra-files": 10, "semver-pair-valid": 5000, "semver-pair-with-invalid": 2000,
-          "semver-equal-but-different-text": 200, "semver-with-prerelease": 2000, "source-path-spelling=double-slash": 20, "meta=trailing": 20, "meta=misnamed-case": 20},
+          "semver-equal-but-different-text": 200, "semver-with-prerelease": 2000, "source-path-spelling=double-slash": 20, "meta=trailing": 20, "meta=misnamed-case": 20, "source-rewritten-in-place-after-install": 50, "version-relation=old-invalid": 5},
   fuzz=[{"name": "FuzzC20_Semver", "seconds": 120}],
   timeout={"quick": 900, "thorough": 5400})
 
